@@ -113,7 +113,7 @@ def sCall (s : SState) (k : Svc) (ctxVal : String) (data : Kw) (rr : Bool) : Cal
 
 def runM (cfg : Cfg) (sigs : List (Nat × Sig)) (univ : List Svc) : MState → List DOp → List Sexp
   | _, [] => []
-  | st, .life op :: r => runM cfg sigs univ (step cfg st op) r
+  | st, .life op :: r => runM cfg sigs univ (step cfg st (admitOp cfg op)) r        -- = `runB`
   | st, .obs :: r => stateS univ st :: runM cfg sigs univ st r
   | st, .call k rr cv d :: r =>
     callS (bound sigs <| callOutcome cfg (haView st.reg) (lower k) cv d rr) :: runM cfg sigs univ st r
@@ -123,9 +123,15 @@ def runM (cfg : Cfg) (sigs : List (Nat × Sig)) (univ : List Svc) : MState → L
     .list (.atom "calls" :: (overlapOutcome cfg (haView st.reg) (lower k) cv ds rr).map (fun o => callS (bound sigs o))) ::
       runM cfg sigs univ st r
 
+/-- the documented rule: a function that names one of pyscript's own services (any spelling) declares no service -/
+def specAdmit : Op → Op
+  | .define ctx fn var gen decl =>
+    if decl.any (fun d => BUILTIN_SERVICES.contains (lower (svcPart d.1))) then .define ctx fn var gen [] else .define ctx fn var gen decl
+  | op => op
+
 def runS (sigs : List (Nat × Sig)) (univ : List Svc) : SState → List DOp → List Sexp
   | _, [] => []
-  | s, .life op :: r => runS sigs univ (sStep s (lowOp op)) r
+  | s, .life op :: r => runS sigs univ (sStep s (lowOp (specAdmit op))) r
   | s, .obs :: r => sstateS univ s :: runS sigs univ s r
   | s, .call k rr cv d :: r => callS (bound sigs <| sCall s k cv d rr) :: runS sigs univ s r
   | s, .scall k rr cv d :: r =>
